@@ -6,21 +6,25 @@ from common import T_COMMON
 #     differ by many ulps but by < 1e-16*size absolutely, hence the absolute term (sizes are kept <= 100);
 #   * the bottom cap of the cylinder and five faces of the six-quad box are rotated by quaternions in the
 #     implementation and written in exact form (x,-y,-z / corner signs) in the model: agreement to ~1e-16*size.
-_SIN = (8, 1e-13)
-_ROT = (8, 1e-12)
+# Measured (seeds 0..3, both tiers): sphere family <= 4 ulps on every token differing by more than 1e-16 (up to 16 ulps on
+# near-zero tokens, absolute difference < 1e-16); rotated parts <= 1.1e-14 absolute at size 100, <= 2.3e-16 on unit normals.
+_SIN = (8, 1e-14)     # positions of sphere / unwelded sphere / hemisphere
+_SINN = (8, 1e-15)    # unit normals of the sphere
+_ROT = (8, 1e-13)     # positions of the capped cylinder and of the six-quad box
+_ROTN = (8, 1e-15)    # their unit normals
 
 CFG = dict(
     gen=[dict(tool="facts", mode="c18.cube", out="CubeTable.lean")],
     # theorems: maintained by the C18 builder
     theorems=["cubeWelded_closed", "quadTris_eq_table", "cubeQuads_closed_mod_merge"],
     streams=[dict(name="c18", n=dict(quick=30, thorough=60),
-                  ulps={"c18.pos.sphere": _SIN, "c18.pos.sphereu": _SIN, "c18.pos.hemi": _SIN, "c18.nrm.sphere": _SIN,
-                        "c18.pos.cyl": _ROT, "c18.nrm.cyl": _ROT, "c18.pos.cubeq": _ROT, "c18.nrm.cubeq": _ROT})],
+                  ulps={"c18.pos.sphere": _SIN, "c18.pos.sphereu": _SIN, "c18.pos.hemi": _SIN, "c18.nrm.sphere": _SINN,
+                        "c18.pos.cyl": _ROT, "c18.nrm.cyl": _ROTN, "c18.pos.cubeq": _ROT, "c18.nrm.cubeq": _ROTN})],
     trusted=T_COMMON + [
         "engine F extractor /verif/go/facts mode c18.cube (go/ast; cubeVertIndices, potentialVerts sign pattern, quad index/sign literals; any unrecognised shape is an error, never a guess)",
         "c18 harness: reads the implementation's meshes through Mesh.Indices/Float3Attribute; position classes computed in Go with a uniform grid (coincide iff distance <= 1e-9*size)",
         "PolyVerif/Model/SolidsOracle.lean + Driver/C18.lean (oracle evaluation): sort-based closedness check used alone above 1200 directed edges, cross-checked against the literal `decide (ClosedMod ..)` on every mesh below that size (both must hold); chunked evaluation of the per-triangle predicates; Float volume formulas of the stacked-frusta / prism polyhedra",
-        "sin/cos: Go math.Sin/Cos vs libm compared within 8 ulps or 1e-13 absolute (positions/normals of sphere, hemisphere, cylinder); quaternion-rotated parts (cylinder bottom cap, six-quad box) compared with the exact form within 1e-12 absolute (sizes <= 100)",
+        "sin/cos: Go math.Sin/Cos vs libm compared within 8 ulps or 1e-14 absolute (positions of sphere, hemisphere; 1e-15 for unit normals); quaternion-rotated parts (cylinder bottom cap, six-quad box) compared with the exact form within 1e-13 absolute (sizes <= 100; 1e-15 for unit normals)",
     ],
     residue=[
         "positions/normals: the implementation's float64 values agree with the model at Float up to the stated tolerances (observed on every run, not proved); geometric facts (outward, volume) are theorems over the reals about the model's positions and are re-checked numerically on the implementation's own output",
